@@ -21,6 +21,8 @@ const REAL_CLIENT_RTU: &str = "rodbus RTU client task (open/retry loop, ClientLo
 const STUB_CLIENT_RTU: &str = "serial port registry (simserial), clock, executor, line peer (director), port-state listener (recording)";
 const REAL_TLS: &str = "rodbus TLS server/client config construction (MinTlsVersion mapping), rodbus TCP server/client tasks with TLS connection handler, role extraction (rx509), sfio-rustls-config verifiers, rustls + tokio-rustls handshakes and record layer, ring";
 const STUB_TLS: &str = "network (simtokio), clock, executor, peer endpoint configuration (bare tokio_rustls with permissive verifier), application + authorization handlers";
+const REAL_FFI: &str = "rodbus-ffi rlib: generated extern \"C\" functions (ffi.rs from rodbus-schema via oo-bindgen), conversions, callback wrappers (sfio-promise), generated Runtime wrapper (sfio-tokio-ffi) on the simulated runtime; rodbus client/server tasks underneath";
+const STUB_FFI: &str = "tokio runtime (simtokio::runtime), network, clock, C callbacks (harness), peer (director)";
 const REAL_CLIENT_TCP: &str = "rodbus TCP client task (connect/retry loop, ClientLoop, request execution), Channel / CallbackSession handles, MBAP framing, request serialisation, response parsing, tokio mpsc/oneshot/select";
 const STUB_CLIENT_TCP: &str = "network (simtokio), clock, executor, peer (director), connection listener (recording)";
 
@@ -96,6 +98,9 @@ pub fn get(prop: &str, tier: &str) -> Option<Check> {
                 batches.push(Batch { name: "client_lockstep_rtu", f: scen::client::run_lockstep_rtu, cfg: cfg(Mode::LockStep, false, 0), runs: n(60_000, 2_000_000), real: REAL_CLIENT_RTU, stub: STUB_CLIENT_RTU });
                 batches.push(Batch { name: "client_lockstep_rtu_faults", f: scen::client::run_lockstep_rtu, cfg: cfg(Mode::LockStep, true, 0), runs: n(20_000, 500_000), real: REAL_CLIENT_RTU, stub: STUB_CLIENT_RTU });
             }
+            if p == "C10" {
+                batches.push(Batch { name: "ffi_client", f: scen::ffi::run_client, cfg: cfg(Mode::LockStep, false, 0), runs: n(10_000, 300_000), real: REAL_FFI, stub: STUB_FFI });
+            }
             if p == "C11" {
                 batches.push(Batch { name: "client_txid_wrap", f: scen::client::run_lockstep, cfg: cfg(Mode::LockStep, false, 1), runs: n(2, 16), real: REAL_CLIENT_TCP, stub: STUB_CLIENT_TCP });
             }
@@ -169,6 +174,14 @@ pub fn get(prop: &str, tier: &str) -> Option<Check> {
                 Batch { name: "tls_grid_server", f: scen::tls::run_server_grid, cfg: cfg(Mode::Racy, false, 0), runs: n(600, 30_000), real: REAL_TLS, stub: STUB_TLS },
             ],
             assumptions: vec!["role strings are those of the committed fixture certificates (no hook is used to inject arbitrary roles)", "the authorization policy is a pure function implemented by the harness"],
+        },
+        "C18" => Check {
+            prop: "C18",
+            rule_text: "ffi client",
+            batches: vec![
+                Batch { name: "ffi_client", f: scen::ffi::run_client, cfg: cfg(Mode::LockStep, false, 0), runs: n(40_000, 1_500_000), real: REAL_FFI, stub: STUB_FFI },
+            ],
+            assumptions: vec!["only valid enumerator values cross the boundary (the generated From<c_int> impls panic on others by oo-bindgen's design)", "Java/.NET/C++ layers above the C ABI are out of scope"],
         },
         _ => return None,
     })
